@@ -882,6 +882,8 @@ class Interp:
             return self.models.intrinsic(self, f, args, kwargs, node, frame)
         if isinstance(f, Closure):
             return f(*args, **kwargs)
+        if getattr(f, "__pyvc_native__", False):
+            return self.native(f, *args, **kwargs)
         # bound method of a real object
         if isinstance(f, types.MethodType):
             inner = f.__func__
